@@ -138,7 +138,7 @@ def call_index(o, system):
             from harness.common import represent
 
             _NIDX[0] += 1
-            o = represent(o, ("c", "fortran", "strided", "readonly", "buffer", "c")[_NIDX[0] % 6])   # same orientation set, other memory representation
+            o = represent(o, ("c", "fortran", "strided", "readonly", "buffer", "buffer", "buffer")[_NIDX[0] % 7])   # same orientation set, other memory representation
         return "None", float(impl()["diagnostics"].misorientation_index(o, lattice(system)))
     except Exception as ex:  # noqa: BLE001 - the exception class is the observation
         return type(ex).__name__, float("nan")
